@@ -68,9 +68,11 @@ PROPS = {
     ),
     "C16": dict(
         module="Anonymongo.Props.C16",
-        theorems=["Anonymongo.Atlas.C16_requests", "Anonymongo.Atlas.C16_outputs", "Anonymongo.Atlas.C16_window", "Anonymongo.Atlas.C16_hosts", "Anonymongo.Atlas.C17_no_leftovers"],
+        theorems=["Anonymongo.Atlas.C16_requests", "Anonymongo.Atlas.C16_outputs", "Anonymongo.Atlas.C16_window", "Anonymongo.Atlas.C16_hosts", "Anonymongo.Atlas.C17_no_leftovers",
+                  "Anonymongo.Facts_atlas_requests"],
+        extra_modules=["Anonymongo.Props.SrcFacts"],
         corr=[],
-        statement="over the trace model of Atlas mode, for EVERY number of hosts: when nothing fails the authenticated requests are the cluster lookup followed by exactly one log download per host in host order, and <outputFile>.<i> receives the redaction of host i's file for i = 0..n-1 in order, each once; without dates the window is (now - 7 days, now) with start < end, with dates it is what was given; hosts are the members of the connection string in order with ports stripped",
+        statement="over the trace model of Atlas mode, for EVERY number of hosts: when nothing fails the authenticated requests are the cluster lookup followed by exactly one log download per host in host order, and <outputFile>.<i> receives the redaction of host i's file for i = 0..n-1 in order, each once; without dates the window is (now - 7 days, now) with start < end, with dates it is what was given; hosts are the members of the connection string in order with ports stripped; REGENERATED facts (Facts_atlas_requests, kernel-decided): the two request templates of atlas.go (cluster description; host log with endDate / startDate), the literal request headers, the temporary-file pattern and the <outputFile>.<i> pattern are exactly the expected ones and the repository sets no other header",
         partial="the trace model (Model/Atlas.lean) covers the orchestration only; net/http, the digest negotiation, connstring.Parse, gzip, temp-file naming and 'stored verbatim' are runtime: tied by whole-program runs against an in-process fake endpoint (request log, query parameters, valid digest responses, every <out>.<i> byte-compared with the tool's own redaction of the same bytes); SRV connection strings need DNS and are exercised as the error path only",
         trusted=["net/http, mongodb-forks/digest, mongo-driver connstring, compress/gzip, os.CreateTemp"],
     ),
@@ -188,7 +190,7 @@ PROPS = {
     ),
     "C20": dict(
         module="Anonymongo.Props.C20",
-        theorems=["Anonymongo.Atlas20.C20_ni", "Anonymongo.Atlas20.C20_nochallenge", "Anonymongo.Atlas20.exchange_noauth", "Anonymongo.Atlas20.C20_source_uses", "Anonymongo.Facts_priv"],
+        theorems=["Anonymongo.Atlas20.C20_ni", "Anonymongo.Atlas20.C20_nochallenge", "Anonymongo.Atlas20.exchange_noauth", "Anonymongo.Atlas20.C20_source_uses", "Anonymongo.Facts_priv", "Anonymongo.Facts_atlas_requests"],
         extra_modules=["Anonymongo.Props.SrcFacts"],
         corr=[],
         statement="(1) kernel-decided over facts REGENERATED from atlas.go / main.go with go/ast: every use of the identifiers privateKey / atlasPrivateKey is a parameter, a declaration / flag binding, a copy, an emptiness test, a pass-through to the three Atlas functions or digest.Transport{Password: ...} - nothing else; (2) in the data-flow model with the key as an explicit input and the digest computation an ARBITRARY function D: all artefacts (request lines, headers, stdout, stderr with quoted server bodies, temp files) depend on the key only through D k - two keys with equal digest responses give identical artefacts; if the server never challenges, no artefact depends on the key and no request carries an Authorization header",
